@@ -22,6 +22,19 @@ pub struct ExecResult {
     pub snaps: Vec<Result<Snap, String>>,
     pub new_err: Option<String>,
     pub reads_total: u64,
+    /// the solver object, if it is still usable (no unwind through solve)
+    pub solver: Option<clarabel::solver::DefaultSolver<f64>>,
+    /// id of the simulated sink, when the target was a stream
+    pub sink_id: Option<usize>,
+}
+
+/// where the solver's output goes
+#[derive(Clone, Debug)]
+pub enum Target {
+    Buffer,
+    Stream(SinkPlan),
+    File(String),
+    Sink,
 }
 
 /// execute the history on solver `sid`
@@ -33,6 +46,21 @@ pub fn exec_history(
     use_limits: bool,
     sink: Option<SinkPlan>,
 ) -> ExecResult {
+    let target = match sink {
+        Some(plan) => Target::Stream(plan),
+        None => Target::Buffer,
+    };
+    exec_history_to(sid, prob, settings, ops, use_limits, &target)
+}
+
+pub fn exec_history_to(
+    sid: u32,
+    prob: &Prob,
+    settings: &DefaultSettings<f64>,
+    ops: &[SolveOp],
+    use_limits: bool,
+    target: &Target,
+) -> ExecResult {
     let mut st = settings.clone();
     if use_limits {
         st.time_limit = ops[0].time_limit;
@@ -40,7 +68,7 @@ pub fn exec_history(
         st.time_limit = f64::INFINITY;
     }
     st.max_iter = ops[0].max_iter;
-    let reads0 = with_sim(|s| s.clocks[0].idx);
+    let reads0 = with_sim(|s| s.clocks[my_id()].idx);
     let mut solver = match sv_new(sid, prob, st) {
         Ok(s) => s,
         Err(e) => {
@@ -48,20 +76,30 @@ pub fn exec_history(
                 snaps: vec![],
                 new_err: Some(e),
                 reads_total: 0,
+                solver: None,
+                sink_id: None,
             }
         }
     };
     use clarabel::io::ConfigurablePrintTarget;
-    if settings.verbose {
-        match sink {
-            Some(plan) => {
-                let id = with_sim(|s| s.new_sink(plan));
-                solver.print_to_stream(Box::new(SimWriter { id }));
-            }
-            None => solver.print_to_buffer(),
+    let mut sink_id = None;
+    // the default target is the process's stdout, which the worker protocol
+    // owns: always redirect
+    match target {
+        Target::Buffer => solver.print_to_buffer(),
+        Target::Stream(plan) => {
+            let id = with_sim(|s| s.new_sink(plan.clone()));
+            sink_id = Some(id);
+            solver.print_to_stream(Box::new(SimWriter { id }));
         }
+        Target::File(path) => {
+            let f = std::fs::File::create(path).expect("create output file");
+            solver.print_to_file(f);
+        }
+        Target::Sink => solver.print_to_sink(),
     }
     let mut snaps = vec![];
+    let mut usable = true;
     for (k, op) in ops.iter().enumerate() {
         if k > 0 {
             solver.settings.time_limit = if use_limits {
@@ -75,14 +113,17 @@ pub fn exec_history(
         let bad = r.is_err();
         snaps.push(r);
         if bad {
+            usable = false;
             break; // the object is not usable after an unwind
         }
     }
-    let reads1 = with_sim(|s| s.clocks[0].idx);
+    let reads1 = with_sim(|s| s.clocks[my_id()].idx);
     ExecResult {
         snaps,
         new_err: None,
         reads_total: reads1 - reads0,
+        solver: if usable { Some(solver) } else { None },
+        sink_id,
     }
 }
 
